@@ -8,6 +8,7 @@ import inspect
 import types
 
 import numpy as np
+import scipy.sparse as sp
 
 from sim import env
 
@@ -24,6 +25,8 @@ MATRIX_NAMES = ('A', 'W', 'CIJ', 'G', 'Gw', 'R', 'adj', 'adjacency', 'D', 'L', '
 VECTOR_LABEL_NAMES = ('ci', 'kci', 'cx', 'cy', 'c', 'Ci')
 
 
+DUST = 0.06  # share of float64 matrices that carry rounding dust (see _dust)
+ZERO_D = 0.1  # share of numeric scalar arguments handed over as 0-d arrays
 OPTION_VALUES = {
     'transform': (None, 'inv', 'log'), 'degree': ('undirected', 'in', 'out'), 'coef_type': ('default', 'zhang', 'constantini'),
     'centrality_type': ('degree', 'betweenness'), 'flag': (0, 1, 2, 3), 'qtype': ('sta', 'pos', 'smp', 'gja', 'neg'), 'gamma': (1, 0.8, 1.3),
@@ -150,6 +153,8 @@ def synth(fname, rnd):
         if pname in MATRIX_NAMES:
             # one call in eight hands a weighted matrix (weights 0.05..1) to a routine documented for binary input
             val = retype(rnd, matrix(rnd, n, signed, directed, binary and rnd.random() > 0.125, diag))
+            if val.dtype == np.float64 and rnd.random() < DUST:
+                val = _dust(rnd, val, directed)
         elif pname in VECTOR_LABEL_NAMES:
             if has_default and rnd.random() < 0.3:
                 continue
@@ -187,11 +192,55 @@ def synth(fname, rnd):
             val = np.array([0.5, 1.0, 2.0])
         else:
             return None
+        if isinstance(val, (int, float)) and not isinstance(val, bool) and rnd.random() < ZERO_D:
+            val = np.array(val)  # a number taken out of an array (np.nditer, a parameter grid): a 0-d array is an array too
         if has_default:
             kwargs[pname] = val
         else:
             args.append(val)
     return args, kwargs
+
+
+def _dust(rnd, W, directed):
+    """rounding dust: 1-3 empty cells hold +-1e-17..1e-11, as matrices do that come out of a floating-point pipeline
+    (a difference of two estimates, a thresholded correlation matrix); several routines treat weights above -1e-10 as
+    non-negative on purpose"""
+    W = W.copy()
+    zi, zj = np.nonzero((W == 0) & ~np.eye(len(W), dtype=bool))
+    if not len(zi):
+        return W
+    for _ in range(rnd.randint(1, 3)):
+        x = rnd.randrange(len(zi))
+        v = rnd.choice((-1, -1, 1)) * 10.0 ** rnd.randint(-17, -11)
+        W[zi[x], zj[x]] = v
+        if not directed:
+            W[zj[x], zi[x]] = v
+    return W
+
+
+def _clouvain(rnd, n):
+    """community_louvain with its objective named (a matrix under the name B would be taken for a custom objective, which the
+    routine cannot digest at all): unsigned / binary / signed input as the objective requires, rounding dust now and then"""
+    B = rnd.choice(('modularity', 'modularity', 'potts', 'negative_sym', 'negative_asym'))
+    directed = rnd.random() < 0.3
+    W = matrix(rnd, n, B.startswith('negative'), directed, B == 'potts', rnd.random() < 0.5)
+    if B == 'modularity':
+        W = retype(rnd, W)
+    if W.dtype == np.float64 and B in ('modularity', 'potts') and rnd.random() < 0.3:
+        W = _dust(rnd, W, directed)
+    kw = {'B': B, 'gamma': rnd.choice((1, 0.8, 1.3))}
+    if rnd.random() < 0.5:
+        kw['ci'] = labels(rnd, n)
+    return [W], kw
+
+
+def _sparse(rnd, n):
+    """a scipy sparse weighted matrix (counts 1..5) in one of the dtypes users store them in, for the one routine that takes one"""
+    W = matrix(rnd, n, False, rnd.random() < 0.5, False, rnd.random() < 0.4)
+    W = np.round(W * 5)
+    dt = rnd.choice((np.int16, np.int16, np.int32, np.int64, np.float64, np.float32))
+    M = rnd.choice((sp.csr_matrix, sp.csr_matrix, sp.csc_matrix))(W.astype(dt))
+    return [M, labels(rnd, n)], {'degree': rnd.choice(('undirected', 'in', 'out'))}
 
 
 def _cis(rnd, n):
@@ -263,6 +312,9 @@ OVERRIDES = {
     'null_model_und_sign': lambda r, n: ([matrix(r, n, True, False, False, True, dens=0.8)], {'bin_swaps': 1, 'wei_freq': r.choice((0.3, 1))}),
     'null_model_dir_sign': lambda r, n: ([matrix(r, n, True, True, False, True, dens=0.8)], {'bin_swaps': 1, 'wei_freq': r.choice((0.3, 1))}),
     'autofix': lambda r, n: ([_dirty(r, n)], {'copy': r.random() < 0.6}),
+    'participation_coef_sparse': lambda r, n: _sparse(r, n),
+    'community_louvain': _clouvain,
+    'logtransform': lambda r, n: ([np.array([[round(r.uniform(0.05, 1.0), 4) for _ in range(n)] for _ in range(n)])], {'copy': r.random() < 0.5}),
     'threshold_proportional': lambda r, n: ([np.abs(matrix(r, n, False, r.random() < 0.5, False, True)), r.choice((0.2, 0.5, 1.0))], {'copy': r.random() < 0.5}),
 }
 
@@ -357,6 +409,8 @@ def snapshot(args, kwargs):
             return ('arr', v.copy(), v.dtype, v.shape)
         if isinstance(v, list):
             return ('list', [snap(x) for x in v])
+        if sp.issparse(v):
+            return ('sparse', [np.array(getattr(v, a)) for a in ('data', 'indices', 'indptr')], v.dtype, v.shape, v.format)
         return ('other', None)
     return [snap(a) for a in args], {k: snap(v) for k, v in kwargs.items()}
 
@@ -371,7 +425,14 @@ def diff(snap, v, path):
             first = tuple(idx[0].tolist()) if len(idx) else ()
             ondiag = bool(len(idx)) and all(len(set(i.tolist())) == 1 for i in idx) and v.ndim == 2
             return '%s modified at %d cell(s)%s, e.g. %s: %r -> %r' % (path, len(idx), ' (all on the diagonal)' if ondiag else '', first,
-                                                                      snap[1][first] if first else None, v[first] if first else None)
+                                                                      snap[1][first] if len(idx) else None, v[first] if len(idx) else None)
+    elif kind == 'sparse':
+        if not sp.issparse(v) or v.dtype != snap[2] or v.shape != snap[3] or v.format != snap[4]:
+            return '%s (sparse) changed dtype/shape/format: %s%s -> %s%s' % (path, snap[2], snap[3], getattr(v, 'dtype', '?'), getattr(v, 'shape', '?'))
+        for a, old in zip(('data', 'indices', 'indptr'), snap[1]):
+            new = np.asarray(getattr(v, a))
+            if new.shape != old.shape or not np.array_equal(new, old):
+                return '%s (sparse) .%s modified: %s -> %s' % (path, a, old.tolist()[:8], new.tolist()[:8])
     elif kind == 'list':
         if not isinstance(v, list) or len(v) != len(snap[1]):
             return '%s list changed length' % path
